@@ -61,4 +61,10 @@ META = {
         'note': PROOF_NOTE + 'strconv and math/big are modelled by their documented behaviour; float rounding and numeric escapes are outside the model. Known finding: underscore+digit names.',
         'technique': 'Lean 4 proof (positional value, quote/unquote round trip, identifier matcher) + regenerated token-table facts + literal/name correspondence sweeps',
     },
+    'C05': {
+        'text': 'Theorems for every prototype forest (any depth, any property payload): lookup returns the binding of the first owner in the order o, proto o, ..., BaseObj; which reports that owner; _missing is consulted only when no ancestor '
+                'has the name, in the same order, else NoPropErr; bear/bro/proto/ancestors relate to the chain as documented; keys are exactly the own public names. Tied to the implementation by random forests x probes.',
+        'note': PROOF_NOTE + 'callable/non-callable dispatch and built-in owners are covered by the correspondence only.',
+        'technique': 'Lean 4 proof (structural induction on the prototype chain) + random forest/probe correspondence',
+    },
 }
